@@ -1,7 +1,15 @@
 """C04 - extension tower (partial claim: tables and indices)."""
-from .. import consts
+from .. import consts, formulas
 
-EXPL = ('Partial claim. The multiplication/squaring/inversion formulas are value-level and NOT decided. Decided: '
+EXPL = ('(R-POLY) The formulas ARE decided, for all inputs at once, by algebraic value numbering: each routine of Fq2/Fq6/Fq12 '
+        '(add, subtract, multiply2, negate, multiply, square, multiply_by_nonresidue, the sparse products by c1 / c01 / c014, '
+        'conjugate, inverse, frobenius_map for every power 0..2*table length) is interpreted down to base-field calls over the '
+        'polynomial ring F_q[inputs] (base-field operations = ring operations, whose exactness is C02\'s concern) and the normal '
+        'form of every output coordinate is compared with the definitional arithmetic of Fq[u]/(u^2+1), Fq2[v]/(v^3-(u+1)), '
+        'Fq6[w]/(w^2-v); inversions are checked as result*a == 1 given the relation of the single inner inversion; every '
+        'admitted aliasing pattern (out==a, out==b, out==a==b) is run as well. Not decided: the cyclotomic squaring and '
+        'map_to_cyclotomic (identities that hold only on a subgroup), Legendre/square-root/norm in Fq2, exponentiation, byte I/O. '
+        'Also decided: '
         '(R-CONST) every entry of the Fq2/Fq6/Fq12 Frobenius coefficient tables equals the coefficient the defining '
         'polynomials require ((-1)^((q^i-1)/2), xi^((q^i-1)/3), xi^((2q^i-2)/3), xi^((q^i-1)/6) with xi = u+1), '
         'computed independently in Fq[u]/(u^2+1) and compared after Montgomery decoding; which table scales which '
@@ -16,3 +24,5 @@ def run(ctx):
     for cfg, prog in ctx.programs().items():
         n = consts.rule_tower_constants(ctx, cfg, prog)
         ctx.floor('tower constant relations[%s]' % cfg, n, 30)
+        m = formulas.rule_tower(ctx, cfg, prog)
+        ctx.floor('R-POLY tower formulas[%s]' % cfg, m, 100)
